@@ -2,6 +2,7 @@
 import astropy.units as u
 import numpy as np
 import pymc as pm
+import pytensor
 import pytensor.tensor as pt
 from packaging.version import Version
 from pymc.distributions.dist_math import check_parameters
@@ -34,8 +35,11 @@ if PYMC_GT_516:
 
         @classmethod
         def dist(cls, a, b, **kwargs):
-            a = pt.as_tensor_variable(a)
-            b = pt.as_tensor_variable(b)
+            # floatX: integer (or float32-representable) bounds would otherwise
+            # become int8 / float32 constants and the draws be computed in
+            # half / single precision
+            a = pt.cast(pt.as_tensor_variable(a), pytensor.config.floatX)
+            b = pt.cast(pt.as_tensor_variable(b), pytensor.config.floatX)
             return super().dist([a, b], **kwargs)
 
         def support_point(rv, size, a, b):
@@ -77,8 +81,11 @@ else:  # old behavior
 
         @classmethod
         def dist(cls, a, b, **kwargs):
-            a = pt.as_tensor_variable(a)
-            b = pt.as_tensor_variable(b)
+            # floatX: integer (or float32-representable) bounds would otherwise
+            # become int8 / float32 constants and the draws be computed in
+            # half / single precision
+            a = pt.cast(pt.as_tensor_variable(a), pytensor.config.floatX)
+            b = pt.cast(pt.as_tensor_variable(b), pytensor.config.floatX)
             return super().dist([a, b], **kwargs)
 
         def support_point(rv, size, a, b):
